@@ -300,17 +300,104 @@ def rule_r3(chk, p, t):
     r.guard(cv.qualname, three)
 
 
+def branch_corrections(fi):
+    """[(name, def_stmt, if_stmt, correction_stmt)] for locals that get a plain definition and then, under an
+    `if` outside any loop, a correction in terms of themselves (`v *= -1`, `v = 2 pi - v`)."""
+    from rsa.util import parents_map
+
+    pm = parents_map(fi.node)
+
+    def ancestors(n):
+        out = []
+        while n in pm:
+            n = pm[n]
+            out.append(n)
+        return out
+
+    plain = {}
+    for n in walk_no_nested(fi.node):
+        if isinstance(n, ast.Assign) and len(n.targets) == 1 and isinstance(n.targets[0], ast.Name):
+            nm = n.targets[0].id
+            if not any(isinstance(x, ast.Name) and x.id == nm for x in ast.walk(n.value)):
+                plain.setdefault(nm, []).append(n)
+    out = []
+    for n in walk_no_nested(fi.node):
+        nm = None
+        if isinstance(n, ast.AugAssign) and isinstance(n.target, ast.Name):
+            nm = n.target.id
+        elif isinstance(n, ast.Assign) and len(n.targets) == 1 and isinstance(n.targets[0], ast.Name) and any(isinstance(x, ast.Name) and x.id == n.targets[0].id for x in ast.walk(n.value)):
+            nm = n.targets[0].id
+        if nm is None or nm not in plain:
+            continue
+        anc = ancestors(n)
+        if any(isinstance(a, (ast.For, ast.While)) for a in anc):
+            continue
+        ifs = [a for a in anc if isinstance(a, ast.If)]
+        if not ifs or n not in ifs[0].body:
+            continue
+        i = ifs[0]
+        # the definition it corrects: the last plain definition before the `if` in source order, not in a loop
+        cands = [d for d in plain[nm] if d.lineno < i.lineno and not any(isinstance(a, (ast.For, ast.While)) for a in ancestors(d))]
+        if not cands:
+            continue
+        out.append((nm, cands[-1], i, n))
+    return out
+
+
+def rule_r4(chk, p, t):
+    r = chk.rule(
+        "C20.R4",
+        "branch corrections precede every use",
+        2,
+        "in the Lambert solvers a quantity that receives a transfer-sense / quadrant correction (`beta_e *= -1` for "
+        "the long way, `alpha_e = 2 pi - alpha_e` beyond the minimum-energy time) is not read between its definition "
+        "and that correction: a derived quantity (the minimum-energy time of flight) computed from the uncorrected "
+        "value picks the wrong root for long-way transfers",
+        "the values of the corrected quantities",
+    )
+    mod = p.module("resonaate.physics.orbit_determination.lambert")
+    n = 0
+    for fi in mod.functions.values():
+        corr = branch_corrections(fi)
+        if not corr:
+            continue
+        cfg = cfg_of(fi)
+        for nm, d, i, c in corr:
+            n += 1
+            cons = f"{fi.qualname}:{nm}"
+            dn = cfg.node_of(d)
+            own = {x.id for x in cfg.nodes if x.ast is not None and any(y is x.ast or (hasattr(x.ast, "lineno") and False) for y in ast.walk(i))}
+            cond_nodes = [x for x in cfg.nodes if x.kind == "cond" and x.ast is not None and any(y is x.ast for y in ast.walk(i.test))]
+            tgt = cond_nodes[0].id if cond_nodes else cfg.node_of(c).id
+            after_def = cfg.reachable(dn.id) - {dn.id}
+            before_corr = cfg.reachable(tgt, forward=False)
+            bad = []
+            for x in cfg.nodes:
+                if x.ast is None or x.id in own or x.id not in after_def or x.id not in before_corr or x.id == tgt:
+                    continue
+                scope = x.ast.value if isinstance(x.ast, (ast.Assign, ast.AugAssign, ast.AnnAssign, ast.Return, ast.Expr)) and getattr(x.ast, "value", None) is not None else x.ast
+                if any(isinstance(y, ast.Name) and y.id == nm and isinstance(y.ctx, ast.Load) for y in ast.walk(scope)):
+                    bad.append(x)
+            if bad:
+                r.violation(cons, f"read-before-correction:{nm}:{unparse(bad[0].ast)[:50]}", f"`{unparse(bad[0].ast)[:90]}` reads `{nm}` before its correction `if {unparse(i.test)}: {unparse(c)}`: it is computed from the uncorrected value (short-way sign) although later expressions use the corrected one", fi.loc(bad[0].ast))
+            else:
+                r.ok(cons, f"`{nm}` is not read between its definition and `if {unparse(i.test)}: {unparse(c)}`", fi.loc(c))
+    if n == 0:
+        r.error("lambert:corrections", "no branch correction found in the Lambert solvers (2 confirmed by hand in lambertBattin)")
+
+
 def run(chk, p, t):
     chk.explanation = (
         "Static decision of a narrow set of structural necessary conditions of C20: (R1) the radar-observation "
         "inversion is the reversed inverse chain of the measurement model with each observed quantity in the slot of "
         "its kind; (R2) no certainly-3-element position reaches an unguarded velocity slice in the IOD pipeline; (R3) "
         "the IOD pipeline hands the solver (r1, r2, t2 - t1, sense) of exactly the two observations used and returns "
-        "(r2, v2); f-g velocity reconstruction as documented. NOT decided: both Lambert iterations and the accuracy of "
+        "(r2, v2); f-g velocity reconstruction as documented; (R4) sense / quadrant corrections in the solvers precede "
+        "every use of the corrected quantity. NOT decided: both Lambert iterations and the accuracy of "
         "the IOD result (boundary-value numerics) - the larger part of the property."
     )
     chk.assumptions += ["sez2eci / razel2sez are the inverses of eci2sez / sez2razel (C04)"]
-    for fn in (rule_r1, rule_r2, rule_r3):
+    for fn in (rule_r1, rule_r2, rule_r3, rule_r4):
         rid = "C20.R" + fn.__name__[-1]
         if not chk.wants(rid):
             continue
